@@ -196,6 +196,17 @@ pub fn seq_pool() -> Vec<String> {
         v.push(format!("{}0;\x07", intro));
         v.push(format!("{}12;q\x07", intro));
     }
+    // sequences that other terminals implement and this one must consume without effect: window
+    // operations incl. the title stack, reports, soft reset, cursor style, SGR stack, key
+    // modifier options, alternate screen / bracketed paste / mouse modes, single shifts, strings
+    for s in [
+        "\x1b[22t", "\x1b[22;0t", "\x1b[22;1t", "\x1b[22;2t", "\x1b[23t", "\x1b[23;0t", "\x1b[23;1t", "\x1b[23;2t", "\x1b[14t", "\x1b[18t", "\x1b[8;24;80t", "\x1b[6n", "\x1b[?6n", "\x1b[5n",
+        "\x1b[0c", "\x1b[>c", "\x1b[=c", "\x1b[!p", "\x1b[\"q", "\x1b[2 q", "\x1b[#{", "\x1b[#}", "\x1b[#P", "\x1b[#Q", "\x1b[>4;2m", "\x1b[>4m", "\x1b[?1049h", "\x1b[?1049l", "\x1b[?47h",
+        "\x1b[?47l", "\x1b[?2004h", "\x1b[?1000h", "\x1b[?1006l", "\x1b[?45h", "\x1b[?95h", "\x1b[?117h", "\x1b[s", "\x1b[u", "\x1b[1;5s", "\x1b[3;14$r", "\x1b[1;1;2;2$z", "\x1b[?2026$p", "\x1b6", "\x1b9",
+        "\x1b=", "\x1b>", "\x1bN", "\x1bO", "\x1bn", "\x1bo", "\x1b~", "\x1b}", "\x1b|", "\x1bl", "\x1bm",
+    ] {
+        v.push(s.to_string());
+    }
     v
 }
 
@@ -965,6 +976,48 @@ impl Check for C19Check {
                 cx.stats.exhaustive_parts.insert("every Unicode scalar value (except BEL, ST, ESC, backslash) inside an OSC 2 payload, bare and as the partner of an ESC".into());
             }
         }
+        // whatever sequence came before on the same parser - complete, aborted, skipped, one that
+        // other terminals implement - the title / icon name is exactly the payload
+        if cx.begin_group("osc after another sequence") {
+            let pool = seq_pool();
+            for (i, pre_seq) in pool.iter().enumerate() {
+                if !cx.mine(i as u64) {
+                    continue;
+                }
+                for (code, payload, term, pk) in [('2', "vim", "\x07", PK::Chars), ('0', "", "\x1b\\", PK::Bytes), ('1', "7", "\u{9c}", PK::Chars)] {
+                    let mut sys = Sys::new(12, 2, pk);
+                    sys.set_recording(false, false);
+                    let _ = sys.try_apply(&Op::Api(Call::SetTitle("T0".into())));
+                    let _ = sys.try_apply(&Op::Api(Call::SetIconName("I0".into())));
+                    let seq = format!("{}\x1b]{};{}{}", pre_seq, code, payload, term);
+                    let ok = sys.try_apply(&Op::Feed(pre_seq.clone())).is_ok();
+                    let mid = sys.snap();
+                    let ok = ok && sys.try_apply(&Op::Feed(format!("\x1b]{};{}{}", code, payload, term))).is_ok();
+                    let post = sys.snap();
+                    cx.stats.clause("osc-judged");
+                    cx.stats.evaluations += 1;
+                    let (want_icon, want_title) = match code {
+                        '0' => (payload.to_string(), payload.to_string()),
+                        '1' => (payload.to_string(), mid.title.clone()),
+                        _ => (mid.icon.clone(), payload.to_string()),
+                    };
+                    if !ok || post.title != want_title || post.icon != want_icon || (post.cx, post.cy) != (mid.cx, mid.cy) || post.grid != mid.grid {
+                        let mut case = Case::new("C19", "osc", 12, 2, pk);
+                        case.ops = vec![Op::Feed(seq.clone())];
+                        case.aux = json!({"after": pre_seq, "code": code.to_string(), "payload": payload, "term": term});
+                        cx.violation(Viol {
+                            prop: "C19".into(),
+                            clause: "after-sequence".into(),
+                            op: "osc".into(),
+                            bucket: format!("code={}", code),
+                            detail: format!("{:?} via {:?}: after {:?} the string OSC {} ; {:?} gave title {:?} / icon {:?} (expected {:?} / {:?}), cursor ({},{}) -> ({},{})", seq, pk, pre_seq, code, payload, post.title, post.icon, want_title, want_icon, mid.cx, mid.cy, post.cx, post.cy),
+                            case,
+                        });
+                    }
+                }
+            }
+            cx.stats.exhaustive_parts.insert(format!("OSC 0/1/2 right after each of {} pool sequences (complete / aborted / skipped / implemented elsewhere) on the same parser", pool.len()));
+        }
         while !cx.out_of_time() {
             if !cx.begin_group("osc random") {
                 if cx.past_only_group() {
@@ -986,6 +1039,16 @@ impl Check for C19Check {
     }
     fn replay(&self, case: &Case, cx: &mut Ctx) {
         let a = &case.aux;
+        if a.get("after").is_some() {
+            let mut c2 = Ctx::new(Tier::Quick, 1, 0, 1, std::time::Duration::from_secs(20));
+            self.shard(&mut c2);
+            for (_, (v, _)) in c2.stats.viols {
+                if v.clause == "after-sequence" {
+                    cx.violation(v);
+                }
+            }
+            return;
+        }
         if case.kind == "multi" {
             let parts: Vec<(String, char, String, String)> = a["parts"]
                 .as_array()
